@@ -580,6 +580,17 @@ where
             ));
         }
 
+        // An operation can only be attached to operations we know about. Dependencies are chosen
+        // by the (remote) author of the operation, we can't assume that they exist.
+        let missing_dependencies: Vec<OP> = operation
+            .dependencies()
+            .into_iter()
+            .filter(|dependency| !y.inner.operations.contains_key(dependency))
+            .collect();
+        if !missing_dependencies.is_empty() {
+            return Err(GroupCrdtInnerError::StatesNotFound(missing_dependencies).into());
+        }
+
         // Adding a group as a manager of another group is currently not
         // supported.
         //
